@@ -42,36 +42,7 @@ IsEvent(name) == l <= Len(TraceLog) /\ TraceLog[l].op = name /\ l' = l + 1
 Same(e, r) == e.ok = r.ok /\ (r.ok => e.v = r.v)
 
 -----------------------------------------------------------------------------
-(* stateless calls *)
-
-TraceEncrypt ==
-  /\ IsEvent("Encrypt")
-  /\ LET e == TraceLog[l] IN
-       IF e.ok THEN e.x \in Units /\ Same(e, EncryptAndReturnRandomness(e.m, e.x))
-               ELSE ~EncryptAndReturnRandomness(e.m, SomeUnit).ok
-  /\ UNCHANGED vars
-
-TraceEncryptAny ==
-  /\ IsEvent("EncryptAny")
-  /\ LET e == TraceLog[l] IN
-       IF e.ok THEN \E x \in Units : Same(e, EncryptAndReturnRandomness(e.m, x))
-               ELSE ~EncryptAndReturnRandomness(e.m, SomeUnit).ok
-  /\ UNCHANGED vars
-
-TraceDecrypt ==
-  /\ IsEvent("Decrypt")
-  /\ LET e == TraceLog[l] IN Same(e, Decrypt(e.c))
-  /\ UNCHANGED vars
-
-TraceHomoAdd ==
-  /\ IsEvent("HomoAdd")
-  /\ LET e == TraceLog[l] IN Same(e, HomoAdd(e.c1, e.c2))
-  /\ UNCHANGED vars
-
-TraceHomoMult ==
-  /\ IsEvent("HomoMult")
-  /\ LET e == TraceLog[l] IN Same(e, HomoMult(e.k, e.c1))
-  /\ UNCHANGED vars
+(* stateless calls: does the specification explain the logged call e ? *)
 
 (* real-size call, projected onto argument classes *)
 ClassOutcome(fn, a, b) ==
@@ -80,9 +51,23 @@ ClassOutcome(fn, a, b) ==
     [] fn = "HomoAdd"  -> HomoAdd(CipherClass[a], CipherClass[b]).ok
     [] fn = "HomoMult" -> HomoMult(PlainClass[a], CipherClass[b]).ok
 
-TraceClass ==
-  /\ IsEvent("Class")
-  /\ LET e == TraceLog[l] IN e.ok = ClassOutcome(e.fn, e.a, e.b)
+CallOps == {"Encrypt", "EncryptAny", "Decrypt", "HomoAdd", "HomoMult", "Class"}
+
+ExplainsCall(e) ==
+  CASE e.op = "Encrypt" ->
+         IF e.ok THEN e.x \in Units /\ Same(e, EncryptAndReturnRandomness(e.m, e.x))
+                 ELSE ~EncryptAndReturnRandomness(e.m, SomeUnit).ok
+    [] e.op = "EncryptAny" ->
+         IF e.ok THEN \E x \in Units : Same(e, EncryptAndReturnRandomness(e.m, x))
+                 ELSE ~EncryptAndReturnRandomness(e.m, SomeUnit).ok
+    [] e.op = "Decrypt"  -> Same(e, Decrypt(e.c))
+    [] e.op = "HomoAdd"  -> Same(e, HomoAdd(e.c1, e.c2))
+    [] e.op = "HomoMult" -> Same(e, HomoMult(e.k, e.c1))
+    [] e.op = "Class"    -> e.ok = ClassOutcome(e.fn, e.a, e.b)
+
+TraceCall ==
+  /\ l <= Len(TraceLog) /\ TraceLog[l].op \in CallOps /\ l' = l + 1
+  /\ ExplainsCall(TraceLog[l])
   /\ UNCHANGED vars
 
 -----------------------------------------------------------------------------
@@ -111,8 +96,7 @@ TraceDec ==
   /\ LET e == TraceLog[l] IN Same(e, Decrypt(acc)) /\ e.ok /\ e.v = pt
   /\ UNCHANGED vars
 
-TraceNext == \/ TraceEncrypt \/ TraceEncryptAny \/ TraceDecrypt \/ TraceHomoAdd \/ TraceHomoMult \/ TraceClass
-             \/ TraceReset \/ TraceFresh \/ TraceAdd \/ TraceMult \/ TraceDec
+TraceNext == TraceCall \/ TraceReset \/ TraceFresh \/ TraceAdd \/ TraceMult \/ TraceDec
 TraceSpec == TraceInit /\ [][TraceNext]_tvars
 
 (* the invariants of the design, on every state the real calls drive the model through *)
@@ -121,7 +105,14 @@ TraceInv == TypeOK /\ AccIsUnit /\ AccDecrypts
 (* high-water mark of consumed lines; needs -workers 1 *)
 ASSUME TLCSet(1, 0)
 HighWater == TLCSet(1, IF l > TLCGet(1) THEN l ELSE TLCGet(1))
+(* self-test of the binding: the harness hands over copies of logged calls in which one  *)
+(* number was altered by one (file BAD); none of them may be explained                   *)
+BadLog == IF "BAD" \in DOMAIN IOEnv THEN ndJsonDeserialize(IOEnv.BAD) ELSE <<>>
+Rejected == {i \in DOMAIN BadLog : ~ExplainsCall(BadLog[i])}
+
 TraceAccepted ==
   /\ PrintT(<<"TRACE_HW", TLCGet(1) - 1, Len(TraceLog)>>)
+  /\ PrintT(<<"SELFTEST", Cardinality(Rejected), Len(BadLog)>>)
   /\ TLCGet(1) = Len(TraceLog) + 1
+  /\ Cardinality(Rejected) = Len(BadLog)
 =============================================================================
